@@ -1,4 +1,441 @@
 /-
-C13 — placeholder (theorems follow)
+C13 — equal and allclose decide (approximate) equality of the denoted tensors.
+The counting argument of PatternedTensor.equal/allclose (`PT.compareModel`, FggsModel/Axis.lean) decides the
+elementwise comparison of the dense tensors (`PT.compareSpec`).
 -/
 import FggsModel.Axis
+import FggsProofs.Props.C06
+import Mathlib.Tactic.Linarith
+import Mathlib.Tactic.Ring
+import Mathlib.Data.List.Basic
+import Mathlib.Data.List.Nodup
+import Mathlib.Data.List.Forall2
+import Mathlib.Data.List.Perm.Subperm
+
+set_option linter.unusedSimpArgs false
+set_option linter.unusedVariables false
+
+namespace C13
+open Fggs Fggs.Ax
+
+/-! ### row-major enumeration -/
+
+private theorem foldl_mul (l : List Nat) : ∀ (a : Nat), l.foldl (· * ·) a = a * l.foldl (· * ·) 1 := by
+  induction l with
+  | nil => intro a; simp
+  | cons x l ih => intro a; rw [List.foldl_cons, List.foldl_cons, ih (a * x), ih (1 * x)]; ring
+
+private theorem numel_nil : numel [] = 1 := rfl
+
+private theorem numel_cons (x : Nat) (l : List Nat) : numel (x :: l) = x * numel l := by
+  unfold numel; rw [List.foldl_cons, foldl_mul]; ring
+
+private theorem range_block (m : Nat) : ∀ n : Nat,
+    (List.range n).flatMap (fun i => (List.range m).map (fun j => i * m + j)) = List.range (n * m)
+  | 0 => by simp
+  | n + 1 => by
+    rw [List.range_succ, List.flatMap_append, range_block m n, Nat.succ_mul, List.range_add]
+    simp
+
+/-- `assigns shape` lists the index tuples in row-major order: the flat position of the `k`-th tuple is `k` -/
+private theorem map_flat_assigns : ∀ shape : List Nat,
+    (assigns shape).map (flat shape) = List.range (numel shape)
+  | [] => by simp [assigns, flat, numel_nil]
+  | n :: rest => by
+    rw [assigns, List.map_flatMap, numel_cons, ← range_block]
+    congr 1
+    funext i
+    rw [List.map_map, ← map_flat_assigns rest, List.map_map]
+    rfl
+
+private theorem length_assigns (shape : List Nat) : (assigns shape).length = numel shape := by
+  have := congrArg List.length (map_flat_assigns shape)
+  simpa using this
+
+private theorem nodup_assigns (shape : List Nat) : (assigns shape).Nodup := by
+  apply List.Nodup.of_map (flat shape)
+  rw [map_flat_assigns]; exact List.nodup_range
+
+private theorem flat_inj {shape : List Nat} {c d : List Nat} (hc : c ∈ assigns shape) (hd : d ∈ assigns shape)
+    (h : flat shape c = flat shape d) : c = d := by
+  have hn : ((assigns shape).map (flat shape)).Nodup := by rw [map_flat_assigns]; exact List.nodup_range
+  exact List.inj_on_of_nodup_map hn hc hd h
+
+private theorem flat_lt {shape : List Nat} {c : List Nat} (hc : c ∈ assigns shape) :
+    flat shape c < numel shape := by
+  have : flat shape c ∈ (assigns shape).map (flat shape) := List.mem_map_of_mem hc
+  rw [map_flat_assigns] at this
+  simpa using this
+
+private theorem flat_getElem {shape : List Nat} {k : Nat} (hk : k < (assigns shape).length) :
+    flat shape (assigns shape)[k] = k := by
+  have h := congrArg (fun l => l[k]?) (map_flat_assigns shape)
+  simp only [List.getElem?_map] at h
+  rw [List.getElem?_eq_getElem hk, List.getElem?_range (by rw [← length_assigns]; exact hk)] at h
+  simpa using h
+
+private theorem mem_assigns_iff : ∀ (shape c : List Nat),
+    c ∈ assigns shape ↔ List.Forall₂ (· < ·) c shape
+  | [], c => by
+    simp [assigns]
+  | n :: rest, c => by
+    simp only [assigns, List.mem_flatMap, List.mem_range, List.mem_map]
+    constructor
+    · rintro ⟨i, hi, d, hd, rfl⟩
+      exact List.Forall₂.cons hi ((mem_assigns_iff rest d).1 hd)
+    · intro h
+      cases h with
+      | cons hi hr => exact ⟨_, hi, _, (mem_assigns_iff rest _).2 hr, rfl⟩
+
+
+/-! ### the fold of `dense` -/
+
+private theorem foldl_set_size (pos : List Nat × Ext → Nat) : ∀ (L : List (List Nat × Ext)) (arr : Array Ext),
+    (L.foldl (fun a kv => a.setIfInBounds (pos kv) kv.2) arr).size = arr.size
+  | [], arr => rfl
+  | kv :: L, arr => by rw [List.foldl_cons, foldl_set_size pos L]; simp
+
+private theorem foldl_set_other (pos : List Nat × Ext → Nat) (k : Nat) :
+    ∀ (L : List (List Nat × Ext)) (arr : Array Ext), (∀ kv ∈ L, pos kv ≠ k) →
+    (L.foldl (fun a kv => a.setIfInBounds (pos kv) kv.2) arr)[k]? = arr[k]?
+  | [], arr, _ => rfl
+  | kv :: L, arr, h => by
+    rw [List.foldl_cons, foldl_set_other pos k L _ (fun x hx => h x (List.mem_cons_of_mem _ hx)),
+      Array.getElem?_setIfInBounds, if_neg (h kv List.mem_cons_self)]
+
+private theorem foldl_set_hit (pos : List Nat × Ext → Nat) :
+    ∀ (L : List (List Nat × Ext)) (arr : Array Ext) (kv : List Nat × Ext), (L.map pos).Nodup → kv ∈ L →
+    pos kv < arr.size →
+    (L.foldl (fun a kv => a.setIfInBounds (pos kv) kv.2) arr)[pos kv]? = some kv.2
+  | [], arr, kv, _, h, _ => by simp at h
+  | x :: L, arr, kv, hn, h, hlt => by
+    rw [List.map_cons, List.nodup_cons] at hn
+    rw [List.foldl_cons]
+    rcases List.mem_cons.1 h with rfl | h'
+    · rw [foldl_set_other pos (pos kv) L _ ?_, Array.getElem?_setIfInBounds, if_pos rfl, if_pos hlt]
+      intro y hy e
+      exact hn.1 (e ▸ List.mem_map_of_mem hy)
+    · exact foldl_set_hit pos L _ kv hn.2 h' (by simpa using hlt)
+
+/-! ### unpacking `wf` -/
+
+private def keys (t : PT) : List (List Nat) := t.cells.map (·.1)
+
+private theorem keys_eq (t : PT) :
+    keys t = (assigns (t.paxes.map (·.2))).map (fun idx => t.vaxes.map (Axis.eval (envOf t.paxes idx))) := by
+  unfold keys PT.cells
+  rw [List.map_map]
+  have : ((fun x : List Nat × Ext => x.1) ∘ fun p : List Nat × Nat =>
+      (t.vaxes.map (Axis.eval (envOf t.paxes p.1)), t.physical[p.2]?.getD t.default)) =
+      (fun idx => t.vaxes.map (Axis.eval (envOf t.paxes idx))) ∘ Prod.fst := rfl
+  rw [this, ← List.map_map, List.zipIdx_map_fst]
+
+private theorem nodup_of_range_check {α : Type} [Inhabited α] [BEq α] [LawfulBEq α] (l : List α)
+    (h : ((List.range l.length).all (fun i => (List.range l.length).all (fun j => i == j || l[i]! != l[j]!))) = true) :
+    l.Nodup := by
+  simp only [List.all_eq_true, List.mem_range, Bool.or_eq_true, beq_iff_eq, bne_iff_ne] at h
+  rw [List.Nodup, List.pairwise_iff_getElem]
+  intro i j hi hj hij
+  rcases h i hi j hj with e | e
+  · omega
+  · rwa [getElem!_pos l i hi, getElem!_pos l j hj] at e
+
+private theorem wf_keys (t : PT) (h : t.wf = true) :
+    (keys t).Nodup ∧ ∀ c ∈ keys t, c ∈ assigns t.vshape := by
+  unfold PT.wf at h
+  simp only [Bool.and_eq_true] at h
+  obtain ⟨-, hr, hd⟩ := h
+  rw [← keys_eq] at hr hd
+  refine ⟨nodup_of_range_check _ hd, ?_⟩
+  intro c hc
+  rw [mem_assigns_iff, List.forall₂_iff_zip]
+  constructor
+  · rw [keys_eq] at hc
+    obtain ⟨idx, -, rfl⟩ := List.mem_map.1 hc
+    simp [PT.vshape]
+  · intro a b hab
+    have := (List.all_eq_true.1 hr) c hc
+    have := (List.all_eq_true.1 this) (a, b) hab
+    simpa using this
+
+/-- the value of cell `c` of the denoted tensor -/
+private def valueAt (t : PT) (c : List Nat) : Ext :=
+  match t.cells.find? (·.1 == c) with | some p => p.2 | none => t.default
+
+private theorem dense_eq_fold (t : PT) :
+    t.dense = (t.cells.foldl (fun a kv => a.setIfInBounds (flat t.vshape kv.1) kv.2)
+      (Array.replicate (numel t.vshape) t.default)).toList := by
+  unfold PT.dense PT.cells
+  rw [List.foldl_map]
+
+private theorem length_dense (t : PT) : t.dense.length = numel t.vshape := by
+  rw [dense_eq_fold, Array.length_toList, foldl_set_size (fun kv => flat t.vshape kv.1)]; simp
+
+private theorem dense_cell' (t : PT) (h : t.wf = true) (c : List Nat) (hc : c ∈ assigns t.vshape) :
+    t.dense[flat t.vshape c]? = some (valueAt t c) := by
+  obtain ⟨hn, hr⟩ := wf_keys t h
+  rw [dense_eq_fold, Array.getElem?_toList]
+  have hpos : (t.cells.map (fun kv => flat t.vshape kv.1)).Nodup := by
+    have : t.cells.map (fun kv => flat t.vshape kv.1) = (keys t).map (flat t.vshape) := by
+      unfold keys; rw [List.map_map]; rfl
+    rw [this]
+    exact List.Nodup.map_on (fun x hx y hy e => flat_inj (hr x hx) (hr y hy) e) hn
+  unfold valueAt
+  cases hf : t.cells.find? (·.1 == c) with
+  | some p =>
+    have hp := List.mem_of_find?_eq_some hf
+    have hk : p.1 = c := by simpa using List.find?_some hf
+    have := foldl_set_hit (fun kv => flat t.vshape kv.1) t.cells
+      (Array.replicate (numel t.vshape) t.default) p hpos hp
+      (by simpa using flat_lt (hr p.1 (List.mem_map_of_mem hp)))
+    simp only [hk] at this
+    simpa using this
+  | none =>
+    rw [List.find?_eq_none] at hf
+    rw [foldl_set_other (fun kv => flat t.vshape kv.1)]
+    · simp [flat_lt hc]
+    · intro kv hkv e
+      have := flat_inj (hr kv.1 (List.mem_map_of_mem hkv)) hc e
+      exact hf kv hkv (by simpa using this)
+
+/-- the denoted tensor, cell by cell in row-major order -/
+private theorem dense_eq_map (t : PT) (h : t.wf = true) : t.dense = (assigns t.vshape).map (valueAt t) := by
+  apply List.ext_getElem?
+  intro k
+  by_cases hk : k < (assigns t.vshape).length
+  · rw [List.getElem?_map, List.getElem?_eq_getElem hk, Option.map_some,
+      ← dense_cell' t h _ (List.getElem_mem hk), flat_getElem hk]
+  · have h1 : t.dense.length ≤ k := by rw [length_dense, ← length_assigns]; omega
+    have h2 : ((assigns t.vshape).map (valueAt t)).length ≤ k := by rw [List.length_map]; omega
+    rw [List.getElem?_eq_none h1, List.getElem?_eq_none h2]
+
+
+/-! ### counting -/
+
+/-- inclusion–exclusion for two duplicate-free sublists `K`, `L` of a duplicate-free list `A` -/
+private theorem count_unbacked {α : Type} (A K L : List α) (inL : α → Bool) (hin : ∀ x, inL x = true ↔ x ∈ L)
+    (hA : A.Nodup) (hK : K.Nodup) (hL : L.Nodup) (hKA : K ⊆ A) (hLA : L ⊆ A) :
+    (∃ c ∈ A, c ∉ K ∧ c ∉ L) ↔ K.length + L.length < A.length + (K.filter inL).length := by
+  have hsplit := List.length_eq_length_filter_add (l := K) inL
+  have hU : (L ++ K.filter (fun x => !inL x)).Nodup := by
+    rw [List.nodup_append]
+    refine ⟨hL, hK.filter _, ?_⟩
+    intro a ha b hb e
+    have := (List.mem_filter.1 hb).2
+    subst e
+    simp [(hin a).2 ha] at this
+  have hUA : (L ++ K.filter (fun x => !inL x)) ⊆ A := by
+    intro x hx
+    rcases List.mem_append.1 hx with hx | hx
+    · exact hLA hx
+    · exact hKA (List.mem_filter.1 hx).1
+  have hlen : (L ++ K.filter (fun x => !inL x)).length =
+      L.length + (K.filter (fun x => !inL x)).length := List.length_append
+  constructor
+  · rintro ⟨c, hcA, hcK, hcL⟩
+    by_contra hlt
+    have hle : A.length ≤ (L ++ K.filter (fun x => !inL x)).length := by omega
+    have hperm := (hU.subperm hUA).perm_of_length_le hle
+    have : c ∈ L ++ K.filter (fun x => !inL x) := hperm.mem_iff.2 hcA
+    rcases List.mem_append.1 this with h | h
+    · exact hcL h
+    · exact hcK (List.mem_filter.1 h).1
+  · intro hlt
+    by_contra hne
+    have hsub : A ⊆ L ++ K.filter (fun x => !inL x) := by
+      intro c hc
+      by_cases hcL : c ∈ L
+      · exact List.mem_append_left _ hcL
+      · by_cases hcK : c ∈ K
+        · refine List.mem_append_right _ (List.mem_filter.2 ⟨hcK, ?_⟩)
+          have : inL c = false := by
+            cases h : inL c
+            · rfl
+            · exact absurd ((hin c).1 h) hcL
+          simp [this]
+        · exact absurd ⟨c, hc, hcK, hcL⟩ hne
+    have := hA.length_le_of_subset hsub
+    omega
+
+private theorem any_key (u : PT) (c : List Nat) : u.cells.any (·.1 == c) = decide (c ∈ keys u) := by
+  rw [Bool.eq_iff_iff]
+  simp only [List.any_eq_true, beq_iff_eq, decide_eq_true_eq, keys, List.mem_map]
+
+private theorem overlap_length (t u : PT) :
+    (t.cells.filter (fun p => u.cells.any (·.1 == p.1))).length =
+      ((keys t).filter (fun c => u.cells.any (·.1 == c))).length := by
+  unfold keys
+  rw [List.filter_map, List.length_map]
+  rfl
+
+private theorem valueAt_of_mem (t : PT) (hn : (keys t).Nodup) (p : List Nat × Ext) (hp : p ∈ t.cells) :
+    valueAt t p.1 = p.2 := by
+  unfold valueAt
+  cases hf : t.cells.find? (·.1 == p.1) with
+  | none =>
+    rw [List.find?_eq_none] at hf
+    exact absurd (by simp) (hf p hp)
+  | some q =>
+    have hq := List.mem_of_find?_eq_some hf
+    have hk : q.1 = p.1 := by simpa using List.find?_some hf
+    have : q = p := List.inj_on_of_nodup_map hn hq hp hk
+    rw [this]
+
+private theorem valueAt_of_not_mem (t : PT) (c : List Nat) (hc : c ∉ keys t) : valueAt t c = t.default := by
+  unfold valueAt
+  cases hf : t.cells.find? (·.1 == c) with
+  | none => rfl
+  | some q =>
+    have hq := List.mem_of_find?_eq_some hf
+    have hk : q.1 = c := by simpa using List.find?_some hf
+    exact absurd (hk ▸ List.mem_map_of_mem hq) hc
+
+private theorem compareModel_iff (cmp : Ext → Ext → Bool) (t u : PT) :
+    PT.compareModel cmp t u = true ↔ t.vshape = u.vshape ∧
+      (∀ p ∈ t.cells, p.1 ∈ keys u → ∀ q, u.cells.find? (·.1 == p.1) = some q → cmp p.2 q.2 = true) ∧
+      (numel t.vshape + (t.cells.filter (fun p => u.cells.any (·.1 == p.1))).length ≤
+          t.cells.length + u.cells.length ∨ cmp t.default u.default = true) ∧
+      (∀ p ∈ t.cells, cmp p.2 u.default = true ∨ p.1 ∈ keys u) ∧
+      (∀ q ∈ u.cells, cmp t.default q.2 = true ∨ q.1 ∈ keys t) := by
+  unfold PT.compareModel
+  by_cases hs : t.vshape = u.vshape
+  · have hne : (t.vshape != u.vshape) = false := by simp [hs]
+    have hif : ∀ (B X : Bool), (if (!B) = true then false else X) = true ↔ B = true ∧ X = true := by
+      intro B X; cases B <;> simp
+    simp only [hne, Bool.false_eq_true, if_false]
+    rw [hif]
+    simp only [hs, true_and, Bool.and_eq_true, Bool.or_eq_true, decide_eq_true_eq, List.all_eq_true,
+      any_key, and_assoc, List.mem_filter, and_imp]
+    refine and_congr ?_ Iff.rfl
+    refine forall_congr' fun p => forall_congr' fun hp => forall_congr' fun hk => ?_
+    cases hf : List.find? (fun x => x.1 == p.1) u.cells <;> simp
+  · simp [hs]
+
+
+private theorem compareSpec_iff (cmp : Ext → Ext → Bool) (t u : PT) (ht : t.wf = true) (hu : u.wf = true) :
+    PT.compareSpec cmp t u = true ↔ t.vshape = u.vshape ∧
+      ∀ c ∈ assigns t.vshape, cmp (valueAt t c) (valueAt u c) = true := by
+  unfold PT.compareSpec
+  rw [Bool.and_eq_true, beq_iff_eq]
+  refine and_congr_right fun hs => ?_
+  rw [dense_eq_map t ht, dense_eq_map u hu, ← hs, List.zip_map', List.all_map, List.all_eq_true]
+  rfl
+
+private theorem all_ne_iff (t : PT) (c : List Nat) : t.cells.all (·.1 != c) = true ↔ c ∉ keys t := by
+  simp only [List.all_eq_true, bne_iff_ne, keys, List.mem_map, not_exists, not_and]
+
+private theorem unbacked_iff (t u : PT) (ht : t.wf = true) (hu : u.wf = true) (hs : t.vshape = u.vshape) :
+    (∃ c ∈ assigns t.vshape, c ∉ keys t ∧ c ∉ keys u) ↔
+    t.cells.length + u.cells.length <
+      numel t.vshape + (t.cells.filter (fun p => u.cells.any (·.1 == p.1))).length := by
+  obtain ⟨hnt, hrt⟩ := wf_keys t ht
+  obtain ⟨hnu, hru⟩ := wf_keys u hu
+  rw [← hs] at hru
+  have := count_unbacked (assigns t.vshape) (keys t) (keys u) (fun c => u.cells.any (·.1 == c))
+    (fun c => by rw [any_key]; simp) (nodup_assigns _) hnt hnu hrt hru
+  have hk : ∀ w : PT, (keys w).length = w.cells.length := fun w => List.length_map _
+  rw [this, overlap_length, length_assigns, hk t, hk u]
+
+/-- the cell of the dense tensor at a virtual index tuple `c` (in range): the value of the physical element
+mapped to `c`, if any (unique under `wf`), else the default -/
+theorem dense_cell (t : PT) (h : t.wf = true) (c : List Nat)
+    (hc : c.length = t.vshape.length ∧ ∀ i (hi : i < c.length) (hi' : i < t.vshape.length), c[i] < t.vshape[i]) :
+    t.dense[flat t.vshape c]? = some (match t.cells.find? (·.1 == c) with | some p => p.2 | none => t.default) := by
+  have hm : c ∈ assigns t.vshape := by
+    rw [mem_assigns_iff, List.forall₂_iff_get]
+    exact ⟨hc.1, fun i h1 h2 => by simpa using hc.2 i h1 h2⟩
+  exact dense_cell' t h c hm
+
+/-- inclusion–exclusion on the two injective images: some cell is backed by neither side iff
+`numel + |overlap| > |P_t| + |P_u|` -/
+theorem exists_unbacked_iff (t u : PT) (ht : t.wf = true) (hu : u.wf = true) (hs : t.vshape = u.vshape) :
+    (∃ c ∈ assigns t.vshape, (t.cells.all (·.1 != c)) ∧ (u.cells.all (·.1 != c))) ↔
+    t.cells.length + u.cells.length < numel t.vshape + (t.cells.filter (fun p => u.cells.any (·.1 == p.1))).length := by
+  rw [← unbacked_iff t u ht hu hs]
+  simp only [all_ne_iff]
+
+/-- **equal/allclose are decided correctly**: for well-formed operands and any elementwise test `cmp`, the
+library's decision procedure returns exactly the elementwise comparison of the dense tensors.
+(`equal`: `cmp = Ext.eqIEEE`; `allclose`: `cmp = isclose rtol atol equal_nan`, self-side element first.) -/
+theorem compareModel_eq_compareSpec (cmp : Ext → Ext → Bool) (t u : PT) (ht : t.wf = true) (hu : u.wf = true) :
+    PT.compareModel cmp t u = PT.compareSpec cmp t u := by
+  rw [Bool.eq_iff_iff, compareModel_iff, compareSpec_iff cmp t u ht hu]
+  refine and_congr_right fun hs => ?_
+  obtain ⟨hnt, hrt⟩ := wf_keys t ht
+  obtain ⟨hnu, hru⟩ := wf_keys u hu
+  rw [← hs] at hru
+  have hcount := unbacked_iff t u ht hu hs
+  constructor
+  · rintro ⟨hov, hdef, hself, hother⟩ c hc
+    by_cases hct : c ∈ keys t
+    · obtain ⟨p, hp, rfl⟩ := List.mem_map.1 hct
+      rw [valueAt_of_mem t hnt p hp]
+      by_cases hcu : p.1 ∈ keys u
+      · obtain ⟨q, hq, hqp⟩ := List.mem_map.1 hcu
+        have hv := valueAt_of_mem u hnu q hq
+        rw [hqp] at hv
+        rw [hv]
+        apply hov p hp hcu q
+        have : valueAt u q.1 = q.2 := valueAt_of_mem u hnu q hq
+        cases hf : u.cells.find? (·.1 == p.1) with
+        | none =>
+          rw [List.find?_eq_none] at hf
+          exact absurd (by simpa using hqp) (hf q hq)
+        | some q' =>
+          have hq' := List.mem_of_find?_eq_some hf
+          have hk : q'.1 = p.1 := by simpa using List.find?_some hf
+          rw [List.inj_on_of_nodup_map hnu hq' hq (hk.trans hqp.symm)]
+      · rw [valueAt_of_not_mem u _ hcu]
+        exact (hself p hp).resolve_right hcu
+    · rw [valueAt_of_not_mem t _ hct]
+      by_cases hcu : c ∈ keys u
+      · obtain ⟨q, hq, rfl⟩ := List.mem_map.1 hcu
+        rw [valueAt_of_mem u hnu q hq]
+        exact (hother q hq).resolve_right hct
+      · rw [valueAt_of_not_mem u _ hcu]
+        refine hdef.resolve_left ?_
+        have := hcount.1 ⟨c, hc, hct, hcu⟩
+        omega
+  · intro hall
+    refine ⟨?_, ?_, ?_, ?_⟩
+    · intro p hp hk q hf
+      have hq := List.mem_of_find?_eq_some hf
+      have hqp : q.1 = p.1 := by simpa using List.find?_some hf
+      have := hall p.1 (hrt _ (List.mem_map_of_mem hp))
+      rw [valueAt_of_mem t hnt p hp, ← hqp, valueAt_of_mem u hnu q hq] at this
+      exact this
+    · by_cases hle : numel t.vshape + (t.cells.filter (fun p => u.cells.any (·.1 == p.1))).length ≤
+          t.cells.length + u.cells.length
+      · exact Or.inl hle
+      · obtain ⟨c, hc, hct, hcu⟩ := hcount.2 (by omega)
+        have := hall c hc
+        rw [valueAt_of_not_mem t _ hct, valueAt_of_not_mem u _ hcu] at this
+        exact Or.inr this
+    · intro p hp
+      by_cases hk : p.1 ∈ keys u
+      · exact Or.inr hk
+      · have := hall p.1 (hrt _ (List.mem_map_of_mem hp))
+        rw [valueAt_of_mem t hnt p hp, valueAt_of_not_mem u _ hk] at this
+        exact Or.inl this
+    · intro q hq
+      by_cases hk : q.1 ∈ keys t
+      · exact Or.inr hk
+      · have := hall q.1 (hru _ (List.mem_map_of_mem hq))
+        rw [valueAt_of_mem u hnu q hq, valueAt_of_not_mem t _ hk] at this
+        exact Or.inl this
+
+private theorem eqIEEE_comm (a b : Ext) : Ext.eqIEEE a b = Ext.eqIEEE b a := by
+  cases a <;> cases b <;> simp [Ext.eqIEEE, eq_comm]
+
+/-- equal is symmetric -/
+theorem equalModel_symm (t u : PT) (ht : t.wf = true) (hu : u.wf = true) : t.equalModel u = u.equalModel t := by
+  unfold PT.equalModel
+  rw [compareModel_eq_compareSpec _ t u ht hu, compareModel_eq_compareSpec _ u t hu ht, Bool.eq_iff_iff,
+    compareSpec_iff _ t u ht hu, compareSpec_iff _ u t hu ht]
+  constructor
+  · rintro ⟨hs, h⟩
+    exact ⟨hs.symm, fun c hc => by rw [eqIEEE_comm]; exact h c (hs ▸ hc)⟩
+  · rintro ⟨hs, h⟩
+    exact ⟨hs.symm, fun c hc => by rw [eqIEEE_comm]; exact h c (hs ▸ hc)⟩
+
+end C13
